@@ -476,6 +476,9 @@ def run_history(case):
       del calls[:]
       config_before = CONF._asdict()  # pylint: disable=protected-access
       conf['vf_c09_run_marker'] = 'run-%d' % run
+      # the test is renamed between runs: the record carries the current name
+      run_name = 'vf_test_name' if run == 0 else 'vf_test_name_run%d' % run
+      t.configure(name=run_name)
 
       @CONF.save_and_restore(**conf)
       def go():
@@ -521,8 +524,9 @@ def run_history(case):
           else 'UNKNOWN_DUT'
       if rec.dut_id != want_dut:
         bad('dut-id-not-set-or-wrong', **ctx, got=rec.dut_id, want=want_dut)
-      if rec.metadata.get('test_name') != 'vf_test_name':
-        bad('metadata-test-name-wrong', **ctx, got=rec.metadata.get('test_name'))
+      if rec.metadata.get('test_name') != run_name:
+        bad('metadata-test-name-wrong', **ctx, got=rec.metadata.get('test_name'),
+            want=run_name)
       snap = rec.metadata.get('config')
       if not isinstance(snap, dict):
         bad('metadata-config-missing', **ctx)
